@@ -561,8 +561,8 @@ theorem subtractPort_spec (ps : Ranges) (p : Nat) (hv : Valid ps = true) :
     rw [normalize_canon _ hcr, ← hsa]
     exact hsz
 
-theorem drawPort_spec (below : Nat) (ports : Option Ranges) (hv : OValid ports = true)
-    (p : Nat) (rest : Option Ranges) (h : drawPort below ports = .ok p rest) :
+theorem drawPort_spec (checked : Bool) (below : Nat) (ports : Option Ranges) (hv : OValid ports = true)
+    (p : Nat) (rest : Option Ranges) (h : drawPort checked below ports = .ok p rest) :
     omem p ports = true ∧ below < p ∧ OValid rest = true ∧
     (∀ q, omem q rest = (omem q ports && !(q == p))) ∧ osize rest ≤ osize ports := by
   cases ports with
@@ -573,7 +573,7 @@ theorem drawPort_spec (below : Nat) (ports : Option Ranges) (hv : OValid ports =
     obtain ⟨hcr, hmr⟩ := remove_spec (normalize ps) (0, below) (Nat.zero_le _) hcN
     simp only [drawPort] at h
     cases hrem : remove (normalize ps) (0, below) with
-    | nil => rw [hrem] at h; cases h
+    | nil => rw [hrem] at h; cases checked <;> cases h
     | cons r tl =>
       rw [hrem] at h
       injection h with hp hrest
@@ -594,9 +594,9 @@ theorem Sub.refl (a : Option Ranges) (h : OValid a = true) : Sub a a := ⟨h, fu
 theorem Sub.trans {a b c : Option Ranges} (h1 : Sub a b) (h2 : Sub b c) : Sub a c :=
   ⟨h1.1, fun q h => h2.2.1 q (h1.2.1 q h), Nat.le_trans h1.2.2.1 h2.2.2.1, fun h => h2.2.2.2 (h1.2.2.2 h)⟩
 
-theorem drawPort_sub (below : Nat) (ports : Option Ranges) (hv : OValid ports = true)
-    (p : Nat) (rest : Option Ranges) (h : drawPort below ports = .ok p rest) : Sub rest ports := by
-  obtain ⟨_, _, h3, h4, h5⟩ := drawPort_spec below ports hv p rest h
+theorem drawPort_sub (checked : Bool) (below : Nat) (ports : Option Ranges) (hv : OValid ports = true)
+    (p : Nat) (rest : Option Ranges) (h : drawPort checked below ports = .ok p rest) : Sub rest ports := by
+  obtain ⟨_, _, h3, h4, h5⟩ := drawPort_spec checked below ports hv p rest h
   refine ⟨h3, ?_, h5, ?_⟩
   · intro q hq; rw [h4] at hq; simp only [Bool.and_eq_true] at hq; exact hq.1
   · intro _
@@ -604,11 +604,121 @@ theorem drawPort_sub (below : Nat) (ports : Option Ranges) (hv : OValid ports = 
     | none => simp [drawPort] at h
     | some _ => rfl
 
+/-! ### claiming the static ranges (`Resources.Subtract` of a ranges resource) -/
+
+theorem remove_size_le (a : Ranges) (r : Range) (hr : r.1 ≤ r.2) (hca : Canonical a = true) :
+    size (remove a r) ≤ size a := by
+  unfold remove
+  rw [squash_canon _ (canonFrom_removeCore r a hr hca)]
+  exact size_removeCore_le r a (by omega)
+
+theorem foldl_remove_spec (rs a : Ranges) (hv : Valid rs = true) (hca : Canonical a = true) :
+    Canonical (rs.foldl remove a) = true ∧
+    (∀ q, mem q (rs.foldl remove a) = (mem q a && !mem q rs)) ∧
+    size (rs.foldl remove a) ≤ size a := by
+  induction rs generalizing a with
+  | nil => exact ⟨hca, fun q => by simp [mem], Nat.le_refl _⟩
+  | cons r rs ih =>
+    rw [valid_cons, Bool.and_eq_true, decide_eq_true_eq] at hv
+    obtain ⟨c1, m1⟩ := remove_spec a r hv.1 hca
+    obtain ⟨c2, m2, s2⟩ := ih (remove a r) hv.2 c1
+    simp only [List.foldl_cons]
+    refine ⟨c2, ?_, Nat.le_trans s2 (remove_size_le a r hv.1 hca)⟩
+    intro q
+    rw [m2, m1, mem_cons]
+    cases mem q a <;> cases memR q r <;> cases mem q rs <;> rfl
+
+theorem canonFrom_lb {lo : Nat} (rs : Ranges) (h : CanonFrom lo rs = true) : ∀ r ∈ rs, lo ≤ r.1 := by
+  induction rs generalizing lo with
+  | nil => intro r hr; cases hr
+  | cons x xs ih =>
+    simp only [CanonFrom, Bool.and_eq_true, decide_eq_true_eq] at h
+    intro r hr
+    cases hr with
+    | head => exact h.1.1
+    | tail _ hr' => have := ih h.2 r hr'; omega
+
+/-- What `Sort().Squash()` produces passes `Resource.Validate`. -/
+theorem validate_canon {lo : Nat} (rs : Ranges) (h : CanonFrom lo rs = true) : validateRanges rs = true := by
+  induction rs generalizing lo with
+  | nil => rfl
+  | cons r rs ih =>
+    simp only [CanonFrom, Bool.and_eq_true, decide_eq_true_eq] at h
+    simp only [validateRanges, Bool.and_eq_true, decide_eq_true_eq, List.all_eq_true, Bool.not_eq_true',
+      Bool.and_eq_false_iff, decide_eq_false_iff_not]
+    refine ⟨⟨h.1.2, ?_⟩, ih h.2⟩
+    intro r2 hr2
+    have := canonFrom_lb rs h.2 r2 hr2
+    right; omega
+
+/-- The list a `Value_Ranges.Subtract` starts from. -/
+theorem startList_spec (ps : Ranges) (hv : Valid ps = true) :
+    ∃ a, (if 1 < ps.length then normalize ps else ps) = a ∧ Canonical a = true ∧
+      (∀ q, mem q a = mem q ps) ∧ size a = size (normalize ps) := by
+  obtain ⟨hcN, hmN⟩ := normalize_spec ps hv
+  by_cases hl : 1 < ps.length
+  · exact ⟨normalize ps, by simp [hl], hcN, hmN, rfl⟩
+  · have hc := short_valid_canonical ps hl hv
+    exact ⟨ps, by simp [hl], hc, fun _ => rfl, by rw [normalize_canon ps hc]⟩
+
+theorem subtractRanges_spec (ps rs : Ranges) (hv : Valid ps = true) (hvr : Valid rs = true) :
+    OValid (subtractRanges ps rs) = true ∧
+    (∀ q, omem q (subtractRanges ps rs) = (mem q ps && !mem q rs)) ∧
+    osize (subtractRanges ps rs) ≤ size (normalize ps) := by
+  obtain ⟨a, hae, hca, hma, hsa⟩ := startList_spec ps hv
+  obtain ⟨hcr, hmr, hsr⟩ := foldl_remove_spec rs a hvr hca
+  unfold subtractRanges
+  simp only [hae]
+  cases hrem : rs.foldl remove a with
+  | nil =>
+    simp only [List.isEmpty_nil, if_true]
+    refine ⟨rfl, ?_, Nat.zero_le _⟩
+    intro q
+    have := hmr q
+    rw [hrem, hma] at this
+    simpa [omem, mem] using this
+  | cons x xs =>
+    simp only [List.isEmpty_cons, Bool.false_eq_true, if_false]
+    rw [← hrem]
+    refine ⟨canonical_valid _ hcr, fun q => by simp only [omem]; rw [hmr, hma], ?_⟩
+    simp only [osize]
+    rw [normalize_canon _ hcr, ← hsa]
+    exact hsr
+
+/-- Claiming the static ranges leaves exactly the other ports. -/
+theorem reserveStatic_spec (static : Ranges) (ports : Option Ranges) (hvs : Valid static = true)
+    (hv : OValid ports = true) :
+    Sub (reserveStatic static ports) ports ∧
+    ∀ q, omem q (reserveStatic static ports) = (omem q ports && !mem q static) := by
+  cases ports with
+  | none => exact ⟨Sub.refl _ rfl, fun q => by simp [reserveStatic, omem]⟩
+  | some ps =>
+    simp only [OValid] at hv
+    obtain ⟨hcS, hmS⟩ := normalize_spec static hvs
+    have hval : validateRanges (normalize static) = true := validate_canon _ hcS
+    simp only [reserveStatic, hval, Bool.not_true, Bool.or_false]
+    by_cases he : (normalize static).isEmpty = true
+    · simp only [he, if_true]
+      refine ⟨Sub.refl _ hv, ?_⟩
+      intro q
+      have : mem q static = false := by
+        rw [← hmS]; rw [List.isEmpty_iff] at he; rw [he]; rfl
+      simp [this]
+    · simp only [he, Bool.false_eq_true, if_false]
+      obtain ⟨s1, s2, s3⟩ := subtractRanges_spec ps (normalize static) hv (canonical_valid _ hcS)
+      refine ⟨⟨s1, ?_, s3, fun _ => rfl⟩, ?_⟩
+      · intro q hq
+        rw [s2] at hq
+        simp only [Bool.and_eq_true] at hq
+        exact hq.1
+      · intro q
+        rw [s2, hmS]; rfl
+
 theorem tcpCount_cons_false (l : List Bool) : tcpCount (false :: l) = tcpCount l := by simp [tcpCount]
 theorem tcpCount_cons_true (l : List Bool) : tcpCount (true :: l) = tcpCount l + 1 := by simp [tcpCount]
 
-theorem drawDyn_spec (inb : List Bool) (ports : Option Ranges) (hv : OValid ports = true)
-    (ps : List Nat) (rest : Option Ranges) (h : drawDyn inb ports = .ok ps rest) :
+theorem drawDyn_spec (checked : Bool) (inb : List Bool) (ports : Option Ranges) (hv : OValid ports = true)
+    (ps : List Nat) (rest : Option Ranges) (h : drawDyn checked inb ports = .ok ps rest) :
     (∀ p ∈ ps, omem p ports = true ∧ 9000 ≤ p) ∧ ps.Nodup ∧ OValid rest = true ∧
     (∀ q, omem q rest = (omem q ports && !(ps.contains q))) ∧ osize rest ≤ osize ports ∧
     ps.length = tcpCount inb := by
@@ -625,14 +735,14 @@ theorem drawDyn_spec (inb : List Bool) (ports : Option Ranges) (hv : OValid port
       exact ih ports hv ps rest h
     | true =>
       simp only [drawDyn] at h
-      cases hd : drawPort dataBelow ports with
+      cases hd : drawPort checked dataBelow ports with
       | noPorts => rw [hd] at h; cases h
       | panic => rw [hd] at h; cases h
       | ok p ports' =>
         rw [hd] at h
         simp only at h
-        obtain ⟨d1, d2, d3, d4, d5⟩ := drawPort_spec dataBelow ports hv p ports' hd
-        cases hr : drawDyn inb ports' with
+        obtain ⟨d1, d2, d3, d4, d5⟩ := drawPort_spec checked dataBelow ports hv p ports' hd
+        cases hr : drawDyn checked inb ports' with
         | noPorts x => rw [hr] at h; cases h
         | panic => rw [hr] at h; cases h
         | ok ps' ports'' =>
@@ -659,8 +769,8 @@ theorem drawDyn_spec (inb : List Bool) (ports : Option Ranges) (hv : OValid port
             cases omem q ports <;> cases (q == p) <;> cases (ps'.contains q) <;> rfl
           · rw [tcpCount_cons_true, List.length_cons, i6]
 
-theorem drawDyn_sub (inb : List Bool) (ports : Option Ranges) (hv : OValid ports = true) :
-    match drawDyn inb ports with
+theorem drawDyn_sub (checked : Bool) (inb : List Bool) (ports : Option Ranges) (hv : OValid ports = true) :
+    match drawDyn checked inb ports with
     | .ok _ r => Sub r ports
     | .noPorts r => Sub r ports
     | .panic => True := by
@@ -671,41 +781,41 @@ theorem drawDyn_sub (inb : List Bool) (ports : Option Ranges) (hv : OValid ports
     | false => simp only [drawDyn]; exact ih ports hv
     | true =>
       simp only [drawDyn]
-      cases hd : drawPort dataBelow ports with
+      cases hd : drawPort checked dataBelow ports with
       | noPorts => exact Sub.refl _ hv
       | panic => trivial
       | ok p ports' =>
-        have hs := drawPort_sub dataBelow ports hv p ports' hd
+        have hs := drawPort_sub checked dataBelow ports hv p ports' hd
         have := ih ports' hs.1
         simp only
-        cases hr : drawDyn inb ports' with
+        cases hr : drawDyn checked inb ports' with
         | noPorts x => rw [hr] at this; exact this.trans hs
         | panic => trivial
         | ok ps' ports'' => rw [hr] at this; exact this.trans hs
 
-/-- What a successfully made task holds. -/
-theorem makeTask_spec (w : Wants) (ports : Option Ranges) (hv : OValid ports = true)
-    (t : Task) (rest : Option Ranges) (h : makeTask w ports = .ok t rest) :
+/-- What the draws of a successfully made task hold. -/
+theorem makeDraws_spec (checked : Bool) (w : Wants) (ports : Option Ranges) (hv : OValid ports = true)
+    (t : Task) (rest : Option Ranges) (h : makeDraws checked w ports = .ok t rest) :
     (∀ p ∈ t.drawn, omem p ports = true) ∧ t.drawn.Nodup ∧
     (∀ p ∈ t.dyn, 9000 ≤ p) ∧ 30000 ≤ t.ctrl ∧ t.dyn.length = tcpCount w.inbound ∧
     t.cpu = w.cpu ∧ t.mem = w.mem ∧ t.static = w.static ∧
     Sub rest ports ∧ (∀ q, omem q rest = (omem q ports && !(t.drawn.contains q))) := by
-  simp only [makeTask] at h
-  cases hd : drawDyn w.inbound ports with
+  simp only [makeDraws] at h
+  cases hd : drawDyn checked w.inbound ports with
   | noPorts x => rw [hd] at h; cases h
   | panic => rw [hd] at h; cases h
   | ok ps ports' =>
     rw [hd] at h
     simp only at h
-    obtain ⟨i1, i2, i3, i4, i5, i6⟩ := drawDyn_spec w.inbound ports hv ps ports' hd
-    cases hc : drawPort ctrlBelow ports' with
+    obtain ⟨i1, i2, i3, i4, i5, i6⟩ := drawDyn_spec checked w.inbound ports hv ps ports' hd
+    cases hc : drawPort checked ctrlBelow ports' with
     | noPorts => rw [hc] at h; cases h
     | panic => rw [hc] at h; cases h
     | ok c ports'' =>
       rw [hc] at h
       simp only at h
       injection h with h1 h2; subst h1 h2
-      obtain ⟨d1, d2, d3, d4, d5⟩ := drawPort_spec ctrlBelow ports' i3 c ports'' hc
+      obtain ⟨d1, d2, d3, d4, d5⟩ := drawPort_spec checked ctrlBelow ports' i3 c ports'' hc
       simp only [Task.drawn]
       rw [i4] at d1
       simp only [Bool.and_eq_true, Bool.not_eq_true'] at d1
@@ -723,8 +833,8 @@ theorem makeTask_spec (w : Wants) (ports : Option Ranges) (hv : OValid ports = t
         have := d1.2
         rw [List.contains_eq_mem, decide_eq_false_iff_not] at this
         exact this ha
-      · exact (drawPort_sub ctrlBelow ports' i3 c ports'' hc).trans
-          (by have := drawDyn_sub w.inbound ports hv; rw [hd] at this; exact this)
+      · exact (drawPort_sub checked ctrlBelow ports' i3 c ports'' hc).trans
+          (by have := drawDyn_sub checked w.inbound ports hv; rw [hd] at this; exact this)
       · intro q
         rw [d4, i4]
         have : (ps ++ [c]).contains q = (ps.contains q || (q == c)) := by
@@ -733,24 +843,129 @@ theorem makeTask_spec (w : Wants) (ports : Option Ranges) (hv : OValid ports = t
         rw [this]
         cases omem q ports <;> cases (ps.contains q) <;> cases (q == c) <;> rfl
 
-theorem makeTask_sub (w : Wants) (ports : Option Ranges) (hv : OValid ports = true) :
-    match makeTask w ports with
+theorem makeDraws_sub (checked : Bool) (w : Wants) (ports : Option Ranges) (hv : OValid ports = true) :
+    match makeDraws checked w ports with
     | .ok _ r => Sub r ports
     | .early r => Sub r ports
     | .late r => Sub r ports
     | .panic => True := by
-  simp only [makeTask]
-  have hd := drawDyn_sub w.inbound ports hv
-  cases hdd : drawDyn w.inbound ports with
+  simp only [makeDraws]
+  have hd := drawDyn_sub checked w.inbound ports hv
+  cases hdd : drawDyn checked w.inbound ports with
   | noPorts x => rw [hdd] at hd; exact hd
   | panic => trivial
   | ok ps ports' =>
     rw [hdd] at hd
     simp only
-    cases hc : drawPort ctrlBelow ports' with
+    cases hc : drawPort checked ctrlBelow ports' with
     | noPorts => exact hd
     | panic => trivial
-    | ok c ports'' => exact (drawPort_sub ctrlBelow ports' hd.1 c ports'' hc).trans hd
+    | ok c ports'' => exact (drawPort_sub checked ctrlBelow ports' hd.1 c ports'' hc).trans hd
+
+/-- The ports the draws start from: all of them, or (with `staticReserved`) all but the static ones. -/
+theorem startPorts_spec (k : Cfg) (w : Wants) (ports : Option Ranges) (hvs : Valid w.static = true)
+    (hv : OValid ports = true) :
+    Sub (if k.staticReserved then reserveStatic w.static ports else ports) ports ∧
+    ∀ q, omem q (if k.staticReserved then reserveStatic w.static ports else ports) =
+      (omem q ports && !(k.staticReserved && mem q w.static)) := by
+  cases hk : k.staticReserved with
+  | false => exact ⟨by simpa using Sub.refl _ hv, fun q => by simp⟩
+  | true =>
+    obtain ⟨r1, r2⟩ := reserveStatic_spec w.static ports hvs hv
+    exact ⟨by simpa using r1, fun q => by simpa using r2 q⟩
+
+/-- What a successfully made task holds: the drawn ports come from the ports given,
+    are distinct, respect the floors, and — when the static ranges are claimed
+    first — none of them is a static port; what is missing afterwards is exactly
+    what the task claimed. -/
+theorem makeTask_spec (k : Cfg) (w : Wants) (ports : Option Ranges) (hvs : Valid w.static = true)
+    (hv : OValid ports = true)
+    (t : Task) (rest : Option Ranges) (h : makeTask k w ports = .ok t rest) :
+    (∀ p ∈ t.drawn, omem p ports = true) ∧ t.drawn.Nodup ∧
+    (∀ p ∈ t.dyn, 9000 ≤ p) ∧ 30000 ≤ t.ctrl ∧ t.dyn.length = tcpCount w.inbound ∧
+    t.cpu = w.cpu ∧ t.mem = w.mem ∧ t.static = w.static ∧
+    Sub rest ports ∧
+    (∀ q, omem q rest = (omem q ports && !(t.drawn.contains q) && !(k.staticReserved && mem q w.static))) ∧
+    (k.staticReserved = true → ∀ p ∈ t.drawn, mem p w.static = false) := by
+  unfold makeTask at h
+  obtain ⟨s1, s2⟩ := startPorts_spec k w ports hvs hv
+  generalize (if k.staticReserved then reserveStatic w.static ports else ports) = ports0 at h s1 s2
+  obtain ⟨k1, k2, k3, k4, k5, k6, k7, k8, k9, k10⟩ := makeDraws_spec k.drawChecked w ports0 s1.1 t rest h
+  refine ⟨fun p hp => s1.2.1 p (k1 p hp), k2, k3, k4, k5, k6, k7, k8, k9.trans s1, ?_, ?_⟩
+  · intro q
+    rw [k10, s2]
+    cases omem q ports <;> cases (t.drawn.contains q) <;> cases (k.staticReserved && mem q w.static) <;> rfl
+  · intro hk p hp
+    have := k1 p hp
+    rw [s2, hk] at this
+    simp only [Bool.true_and, Bool.and_eq_true, Bool.not_eq_true'] at this
+    exact this.2
+
+theorem makeTask_sub (k : Cfg) (w : Wants) (ports : Option Ranges) (hvs : Valid w.static = true)
+    (hv : OValid ports = true) :
+    match makeTask k w ports with
+    | .ok _ r => Sub r ports
+    | .early r => Sub r ports
+    | .late r => Sub r ports
+    | .panic => True := by
+  unfold makeTask
+  obtain ⟨s1, _⟩ := startPorts_spec k w ports hvs hv
+  generalize (if k.staticReserved then reserveStatic w.static ports else ports) = ports0 at s1
+  have := makeDraws_sub k.drawChecked w ports0 s1.1
+  cases hm : makeDraws k.drawChecked w ports0 with
+  | early r => rw [hm] at this; exact this.trans s1
+  | late r => rw [hm] at this; exact this.trans s1
+  | panic => trivial
+  | ok t r => rw [hm] at this; exact this.trans s1
+
+/-! ### with the emptiness test in front of `Min()` nothing panics -/
+
+theorem drawPort_checked (below : Nat) (ports : Option Ranges) : drawPort true below ports = .panic → False := by
+  intro h
+  cases ports with
+  | none => cases h
+  | some ps =>
+    simp only [drawPort] at h
+    cases hrem : remove (normalize ps) (0, below) with
+    | nil => rw [hrem] at h; cases h
+    | cons r tl => rw [hrem] at h; cases h
+
+theorem drawDyn_checked (inb : List Bool) (ports : Option Ranges) : drawDyn true inb ports = .panic → False := by
+  induction inb generalizing ports with
+  | nil => intro h; cases h
+  | cons b inb ih =>
+    cases b with
+    | false => simp only [drawDyn]; exact ih ports
+    | true =>
+      simp only [drawDyn]
+      cases hd : drawPort true dataBelow ports with
+      | noPorts => intro h; cases h
+      | panic => exact fun _ => drawPort_checked _ _ hd
+      | ok p ports' =>
+        simp only
+        cases hr : drawDyn true inb ports' with
+        | noPorts x => intro h; cases h
+        | panic => exact fun _ => ih ports' hr
+        | ok ps' ports'' => intro h; cases h
+
+theorem makeDraws_checked (w : Wants) (ports : Option Ranges) : (makeDraws true w ports).isPanic = false := by
+  simp only [makeDraws]
+  cases hd : drawDyn true w.inbound ports with
+  | noPorts x => rfl
+  | panic => exact (drawDyn_checked _ _ hd).elim
+  | ok ps ports' =>
+    simp only
+    cases hc : drawPort true ctrlBelow ports' with
+    | noPorts => rfl
+    | panic => exact (drawPort_checked _ _ hc).elim
+    | ok c ports'' => rfl
+
+/-- makeTaskForMesosResources with the emptiness tests never indexes an empty list. -/
+theorem makeTask_no_panic (k : Cfg) (hk : k.drawChecked = true) (w : Wants) (ports : Option Ranges) :
+    (makeTask k w ports).isPanic = false := by
+  unfold makeTask
+  rw [hk]
+  exact makeDraws_checked w _
 
 /-! ## Resources.Satisfy -/
 
@@ -830,18 +1045,31 @@ theorem resSatisfy_covers (r : Res) (w : Wants) (hvs : Valid w.static = true) (h
                     omega
                   · simp [hall] at h3'
 
+/-- `a` is a scalar that came from `b` by subtractions. -/
+def OLe (a b : Option Nat) : Prop := ∀ x, a = some x → ∃ y, b = some y ∧ x ≤ y
+
+theorem OLe.refl (a : Option Nat) : OLe a a := fun x h => ⟨x, h, Nat.le_refl _⟩
+
+theorem OLe.trans {a b c : Option Nat} (h1 : OLe a b) (h2 : OLe b c) : OLe a c := by
+  intro x hx
+  obtain ⟨y, hy, hxy⟩ := h1 x hx
+  obtain ⟨z, hz, hyz⟩ := h2 y hy
+  exact ⟨z, hz, Nat.le_trans hxy hyz⟩
+
 /-- More resources cover at least as much. -/
-theorem covers_mono (rem o : Res) (w : Wants) (hc : rem.cpu = o.cpu) (hm : rem.mem = o.mem)
+theorem covers_mono (rem o : Res) (w : Wants) (hc : OLe rem.cpu o.cpu) (hm : OLe rem.mem o.mem)
     (hs : Sub rem.ports o.ports) (h : covers rem w = true) : covers o w = true := by
   unfold covers at h ⊢
-  rw [hc, hm] at h
-  cases hcpu : o.cpu with
-  | none => rw [hcpu] at h; simp at h
-  | some c =>
-    cases hmem : o.mem with
-    | none => rw [hcpu, hmem] at h; simp at h
-    | some m =>
-      rw [hcpu, hmem] at h
+  cases hcpu' : rem.cpu with
+  | none => rw [hcpu'] at h; simp at h
+  | some c' =>
+    cases hmem' : rem.mem with
+    | none => rw [hcpu', hmem'] at h; simp at h
+    | some m' =>
+      obtain ⟨c, hcpu, hcc⟩ := hc c' hcpu'
+      obtain ⟨mm, hmem, hmm⟩ := hm m' hmem'
+      rw [hcpu', hmem'] at h
+      rw [hcpu, hmem]
       cases hp' : rem.ports with
       | none => rw [hp'] at h; simp at h
       | some ps' =>
@@ -853,13 +1081,119 @@ theorem covers_mono (rem o : Res) (w : Wants) (hc : rem.cpu = o.cpu) (hm : rem.m
           rw [hp] at s2 s3
           simp only [Bool.and_eq_true, decide_eq_true_eq] at h ⊢
           simp only [osize] at s3
-          refine ⟨⟨h.1.1, ?_⟩, by omega⟩
+          refine ⟨⟨⟨by omega, by omega⟩, ?_⟩, by omega⟩
           rw [List.all_eq_true] at h ⊢
           intro s hs
           have := h.1.2 s hs
           rw [rangeInside_iff] at this ⊢
           intro p hp
           exact s2 p (this p hp)
+
+/-- What `covers` says about the scalars. -/
+theorem covers_scalars (r : Res) (w : Wants) (h : covers r w = true) :
+    ∃ c mm ps, r.cpu = some c ∧ r.mem = some mm ∧ r.ports = some ps ∧ w.cpu ≤ c ∧ w.mem ≤ mm ∧
+      ∀ s ∈ w.static, ∀ p, memR p s = true → mem p ps = true := by
+  unfold covers at h
+  cases hc : r.cpu with
+  | none => rw [hc] at h; simp at h
+  | some c =>
+    cases hm : r.mem with
+    | none => rw [hc, hm] at h; simp at h
+    | some mm =>
+      cases hp : r.ports with
+      | none => rw [hc, hm, hp] at h; simp at h
+      | some ps =>
+        rw [hc, hm, hp] at h
+        simp only [Bool.and_eq_true, decide_eq_true_eq, List.all_eq_true] at h
+        exact ⟨c, mm, ps, rfl, rfl, rfl, h.1.1.1, h.1.1.2, fun s hs => (rangeInside_iff ps s).1 (h.1.2 s hs)⟩
+
+/-! ## expanding ranges into ports -/
+
+theorem mem_expand (x : Nat) (rs : Ranges) : x ∈ expand rs ↔ mem x rs = true := by
+  unfold expand
+  rw [List.mem_flatMap, mem_iff]
+  constructor
+  · rintro ⟨r, hr, hx⟩
+    rw [List.mem_range'_1] at hx
+    exact ⟨r, hr, by rw [memR_iff]; omega⟩
+  · rintro ⟨r, hr, hx⟩
+    rw [memR_iff] at hx
+    exact ⟨r, hr, by rw [List.mem_range'_1]; omega⟩
+
+theorem expand_canon {lo : Nat} (rs : Ranges) (h : CanonFrom lo rs = true) :
+    (expand rs).Pairwise (· < ·) ∧ ∀ x ∈ expand rs, lo ≤ x := by
+  induction rs generalizing lo with
+  | nil => simp [expand]
+  | cons r rs ih =>
+    simp only [CanonFrom, Bool.and_eq_true, decide_eq_true_eq] at h
+    obtain ⟨p1, p2⟩ := ih h.2
+    have he : expand (r :: rs) = List.range' r.1 (r.2 + 1 - r.1) ++ expand rs := by simp [expand]
+    rw [he]
+    refine ⟨?_, ?_⟩
+    · rw [List.pairwise_append]
+      refine ⟨List.pairwise_lt_range', p1, ?_⟩
+      intro a ha b hb
+      rw [List.mem_range'_1] at ha
+      have := p2 b hb
+      omega
+    · intro x hx
+      rw [List.mem_append] at hx
+      cases hx with
+      | inl hx => rw [List.mem_range'_1] at hx; omega
+      | inr hx => have := p2 x hx; omega
+
+/-- The static ports of a task, as a list: distinct, and exactly the members of its static ranges. -/
+theorem staticPorts_spec (static : Ranges) (hv : Valid static = true) :
+    (expand (normalize static)).Nodup ∧ ∀ x, x ∈ expand (normalize static) ↔ mem x static = true := by
+  obtain ⟨hcn, hmn⟩ := normalize_spec static hv
+  refine ⟨(expand_canon _ hcn).1.imp (fun h => Nat.ne_of_lt h), ?_⟩
+  intro x
+  rw [mem_expand, hmn]
+
+/-! ## scalars -/
+
+def avail (a : Option Nat) : Nat := a.getD 0
+
+theorem subScalar_le (a : Option Nat) (x : Nat) : OLe (subScalar a x) a := by
+  unfold subScalar
+  by_cases hx : x = 0
+  · simp only [hx, if_true]; exact OLe.refl _
+  · simp only [hx, if_false]
+    cases a with
+    | none => exact OLe.refl _
+    | some c =>
+      simp only
+      by_cases hz : c - x = 0
+      · simp only [hz, if_true]; intro y hy; cases hy
+      · simp only [hz, if_false]
+        intro y hy
+        injection hy with hy
+        exact ⟨c, rfl, by omega⟩
+
+theorem avail_subScalar (c x : Nat) : avail (subScalar (some c) x) = c - x := by
+  unfold subScalar avail
+  by_cases hx : x = 0
+  · simp [hx]
+  · simp only [hx, if_false]
+    by_cases hz : c - x = 0
+    · simp [hz]
+    · simp [hz]
+
+theorem afterLaunch_ports (k : Cfg) (rem : Res) (t : Task) (p : Option Ranges) :
+    (afterLaunch k rem t p).ports = p := by
+  unfold afterLaunch; split <;> rfl
+
+theorem afterLaunch_cpu_le (k : Cfg) (rem : Res) (t : Task) (p : Option Ranges) :
+    OLe (afterLaunch k rem t p).cpu rem.cpu := by
+  unfold afterLaunch; split
+  · exact subScalar_le _ _
+  · exact OLe.refl _
+
+theorem afterLaunch_mem_le (k : Cfg) (rem : Res) (t : Task) (p : Option Ranges) :
+    OLe (afterLaunch k rem t p).mem rem.mem := by
+  unfold afterLaunch; split
+  · exact subScalar_le _ _
+  · exact OLe.refl _
 
 /-! ## one offer -/
 
@@ -872,14 +1206,26 @@ def Good (m : Mode) (o : Offer) (l : Launch) : Prop :=
 
 def drawnOf (ls : List Launch) : List Nat := ls.flatMap (fun l => l.task.drawn)
 
+/-- every port the launches claim, static ranges included -/
+def claimsOf (ls : List Launch) : List Nat := ls.flatMap (fun l => l.task.claims)
+
+def cpuSum (ls : List Launch) : Nat := (ls.map (·.task.cpu)).sum
+def memSum (ls : List Launch) : Nat := (ls.map (·.task.mem)).sum
+
 /-- Invariant of the handling of offer `o`. -/
 structure Inv (m : Mode) (o : Offer) (s : OState) : Prop where
-  cpu : s.rem.cpu = o.res.cpu
-  mem : s.rem.mem = o.res.mem
+  cpu : OLe s.rem.cpu o.res.cpu
+  mem : OLe s.rem.mem o.res.mem
   sub : Sub s.rem.ports o.res.ports
   good : ∀ l ∈ s.launches, Good m o l
   nodup : (drawnOf s.launches).Nodup
   fromOffer : ∀ p ∈ drawnOf s.launches, omem p o.res.ports = true ∧ omem p s.rem.ports = false
+  /-- with the scalars subtracted: what was handed out plus what remains stays within the offer -/
+  sums : m.cfg.scalarsSubtracted = true →
+    cpuSum s.launches + avail s.rem.cpu ≤ avail o.res.cpu ∧ memSum s.launches + avail s.rem.mem ≤ avail o.res.mem
+  /-- with the static ranges claimed first: no port is claimed twice, and no claimed port remains -/
+  claims : m.cfg.staticReserved = true → (claimsOf s.launches).Nodup ∧
+    ∀ p ∈ claimsOf s.launches, omem p o.res.ports = true ∧ omem p s.rem.ports = false
 
 /-- all static ranges that can be asked for are well-formed (begin ≤ end) -/
 def StaticValid (m : Mode) (ds : List Desc) : Prop :=
@@ -905,21 +1251,32 @@ theorem validInputs_iff (m : Mode) (descs : List Desc) (order : List Offer) :
 theorem inv_setPorts (m : Mode) (o : Offer) (s : OState) (p : Option Ranges) (used : Bool)
     (h : Inv m o s) (hs : Sub p s.rem.ports) :
     Inv m o { s with rem := { s.rem with ports := p }, used := used } :=
+  have gone : ∀ q, omem q s.rem.ports = false → omem q p = false := fun q h2 => by
+    cases hq' : omem q p with
+    | false => rfl
+    | true => rw [hs.2.1 q hq'] at h2; cases h2
   { cpu := h.cpu, mem := h.mem, sub := hs.trans h.sub, good := h.good, nodup := h.nodup,
-    fromOffer := fun q hq => ⟨(h.fromOffer q hq).1, by
-      have h2 := (h.fromOffer q hq).2
-      cases hq' : omem q p with
-      | false => rfl
-      | true => rw [hs.2.1 q hq'] at h2; cases h2⟩ }
+    fromOffer := fun q hq => ⟨(h.fromOffer q hq).1, gone q (h.fromOffer q hq).2⟩,
+    sums := h.sums,
+    claims := fun hk => ⟨(h.claims hk).1, fun q hq => ⟨((h.claims hk).2 q hq).1, gone q ((h.claims hk).2 q hq).2⟩⟩ }
 
 theorem drawnOf_append (ls : List Launch) (l : Launch) : drawnOf (ls ++ [l]) = drawnOf ls ++ l.task.drawn := by
   simp [drawnOf]
+
+theorem claimsOf_append (ls : List Launch) (l : Launch) : claimsOf (ls ++ [l]) = claimsOf ls ++ l.task.claims := by
+  simp [claimsOf]
+
+theorem cpuSum_append (ls : List Launch) (l : Launch) : cpuSum (ls ++ [l]) = cpuSum ls + l.task.cpu := by
+  simp [cpuSum]
+
+theorem memSum_append (ls : List Launch) (l : Launch) : memSum (ls ++ [l]) = memSum ls + l.task.mem := by
+  simp [memSum]
 
 /-- The step both loops share: a successful `tryPlace` keeps the invariant. -/
 theorem inv_step (m : Mode) (o : Offer) (s : OState) (d : Desc) (t : Task) (p : Option Ranges)
     (hsv : ∀ c, d.cls = some c → Valid (c.wants m).static = true)
     (h : Inv m o s) (ht : tryPlace m o s.rem d = .ok t p) :
-    Inv m o { s with rem := { s.rem with ports := p }, used := true, launches := s.launches ++ [⟨d, t⟩] } := by
+    Inv m o { s with rem := afterLaunch m.cfg s.rem t p, used := true, launches := s.launches ++ [⟨d, t⟩] } := by
   unfold tryPlace at ht
   by_cases hsat : m.sat o.attrs d.cts = true
   · simp only [hsat, Bool.not_true, Bool.false_eq_true, if_false] at ht
@@ -930,7 +1287,7 @@ theorem inv_step (m : Mode) (o : Offer) (s : OState) (d : Desc) (t : Task) (p : 
       simp only at ht
       by_cases hres : resSatisfy s.rem (c.wants m) = true
       · simp only [hres, Bool.not_true, Bool.false_eq_true, if_false] at ht
-        cases hmk : makeTask (c.wants m) s.rem.ports with
+        cases hmk : makeTask m.cfg (c.wants m) s.rem.ports with
         | early x => rw [hmk] at ht; cases ht
         | late x => rw [hmk] at ht; cases ht
         | panic => rw [hmk] at ht; cases ht
@@ -938,11 +1295,16 @@ theorem inv_step (m : Mode) (o : Offer) (s : OState) (d : Desc) (t : Task) (p : 
           rw [hmk] at ht
           simp only at ht
           injection ht with e1 e2; subst e1 e2
-          obtain ⟨k1, k2, k3, k4, k5, k6, k7, k8, k9, k10⟩ := makeTask_spec (c.wants m) s.rem.ports h.sub.1 t' p' hmk
-          have hcov : covers o.res (c.wants m) = true :=
-            covers_mono s.rem o.res _ h.cpu h.mem h.sub
-              (resSatisfy_covers s.rem _ (hsv c hcls) h.sub.1 hres)
-          refine { cpu := h.cpu, mem := h.mem, sub := k9.trans h.sub, good := ?_, nodup := ?_, fromOffer := ?_ }
+          obtain ⟨k1, k2, k3, k4, k5, k6, k7, k8, k9, k10, k11⟩ :=
+            makeTask_spec m.cfg (c.wants m) s.rem.ports (hsv c hcls) h.sub.1 t' p' hmk
+          have hcovR : covers s.rem (c.wants m) = true := resSatisfy_covers s.rem _ (hsv c hcls) h.sub.1 hres
+          have hcov : covers o.res (c.wants m) = true := covers_mono s.rem o.res _ h.cpu h.mem h.sub hcovR
+          obtain ⟨cc, mm, ps, hcc, hmm, hps, hwc, hwm, hin⟩ := covers_scalars s.rem _ hcovR
+          obtain ⟨snd, smem⟩ := staticPorts_spec (c.wants m).static (hsv c hcls)
+          have hports := afterLaunch_ports m.cfg s.rem t' p'
+          refine { cpu := (afterLaunch_cpu_le _ _ _ _).trans h.cpu, mem := (afterLaunch_mem_le _ _ _ _).trans h.mem,
+                   sub := ?_, good := ?_, nodup := ?_, fromOffer := ?_, sums := ?_, claims := ?_ }
+          · simp only [hports]; exact k9.trans h.sub
           · intro l hl
             rw [List.mem_append] at hl
             cases hl with
@@ -958,7 +1320,7 @@ theorem inv_step (m : Mode) (o : Offer) (s : OState) (d : Desc) (t : Task) (p : 
             rw [k1 a hb] at this; cases this
           · intro q hq
             rw [drawnOf_append, List.mem_append] at hq
-            simp only at hq ⊢
+            simp only [hports] at hq ⊢
             cases hq with
             | inl hq =>
               refine ⟨(h.fromOffer q hq).1, ?_⟩
@@ -968,11 +1330,64 @@ theorem inv_step (m : Mode) (o : Offer) (s : OState) (d : Desc) (t : Task) (p : 
               rw [k10]
               have : t'.drawn.contains q = true := by rw [List.contains_eq_mem]; simpa using hq
               rw [this]; simp
+          · intro hk
+            obtain ⟨s1, s2⟩ := h.sums hk
+            rw [cpuSum_append, memSum_append]
+            simp only [afterLaunch, hk, if_true, hcc, hmm, avail_subScalar, k6, k7]
+            rw [hcc] at s1; rw [hmm] at s2
+            simp only [avail, Option.getD_some] at s1 s2 ⊢
+            constructor <;> omega
+          · intro hk
+            obtain ⟨c1, c2⟩ := h.claims hk
+            -- the new task's claims: static ports, then drawn ports
+            have hst : ∀ x, x ∈ expand (normalize t'.static) → omem x s.rem.ports = true ∧ mem x (c.wants m).static = true := by
+              intro x hx
+              rw [k8, smem] at hx
+              rw [mem_iff] at hx
+              obtain ⟨r, hr, hxr⟩ := hx
+              refine ⟨?_, by rw [mem_iff]; exact ⟨r, hr, hxr⟩⟩
+              rw [hps]; exact hin r hr x hxr
+            have hnew : ∀ x ∈ t'.claims, omem x s.rem.ports = true ∧ omem x p' = false := by
+              intro x hx
+              simp only [Task.claims, List.mem_append] at hx
+              cases hx with
+              | inl hx =>
+                obtain ⟨a1, a2⟩ := hst x hx
+                refine ⟨a1, ?_⟩
+                rw [k10, hk, a2]; simp
+              | inr hx =>
+                refine ⟨k1 x hx, ?_⟩
+                rw [k10]
+                have : t'.drawn.contains x = true := by rw [List.contains_eq_mem]; simpa using hx
+                rw [this]; simp
+            refine ⟨?_, ?_⟩
+            · rw [claimsOf_append, List.nodup_append]
+              refine ⟨c1, ?_, ?_⟩
+              · simp only [Task.claims]
+                rw [List.nodup_append]
+                refine ⟨by rw [k8]; exact snd, k2, ?_⟩
+                intro a ha b hb hab
+                subst hab
+                have := k11 hk a hb
+                rw [(hst a ha).2] at this; cases this
+              · intro a ha b hb hab
+                subst hab
+                have := (c2 a ha).2
+                rw [(hnew a hb).1] at this; cases this
+            · intro q hq
+              rw [claimsOf_append, List.mem_append] at hq
+              simp only [hports]
+              cases hq with
+              | inl hq =>
+                refine ⟨(c2 q hq).1, ?_⟩
+                rw [k10, (c2 q hq).2]; rfl
+              | inr hq => exact ⟨h.sub.2.1 q (hnew q hq).1, (hnew q hq).2⟩
       · simp [hres] at ht
   · simp [hsat] at ht
 
 /-- `.early`/`.late` leave a sub-resource behind. -/
-theorem tryPlace_sub (m : Mode) (o : Offer) (rem : Res) (d : Desc) (hv : OValid rem.ports = true) :
+theorem tryPlace_sub (m : Mode) (o : Offer) (rem : Res) (d : Desc) (hv : OValid rem.ports = true)
+    (hsv : ∀ c, d.cls = some c → Valid (c.wants m).static = true) :
     match tryPlace m o rem d with
     | .early p => Sub p rem.ports
     | .late p => Sub p rem.ports
@@ -986,8 +1401,8 @@ theorem tryPlace_sub (m : Mode) (o : Offer) (rem : Res) (d : Desc) (hv : OValid 
       simp only
       by_cases hres : resSatisfy rem (c.wants m) = true
       · simp only [hres, Bool.not_true, Bool.false_eq_true, if_false]
-        have := makeTask_sub (c.wants m) rem.ports hv
-        cases hmk : makeTask (c.wants m) rem.ports with
+        have := makeTask_sub m.cfg (c.wants m) rem.ports (hsv c hcls) hv
+        cases hmk : makeTask m.cfg (c.wants m) rem.ports with
         | early x => rw [hmk] at this; exact this
         | late x => rw [hmk] at this; exact this
         | panic => trivial
@@ -995,21 +1410,24 @@ theorem tryPlace_sub (m : Mode) (o : Offer) (rem : Res) (d : Desc) (hv : OValid 
       · simp [hres]
   · simp [hsat]
 
+theorem inv_crashed (m : Mode) (o : Offer) (s : OState) (h : Inv m o s) : Inv m o { s with crashed := true } :=
+  { cpu := h.cpu, mem := h.mem, sub := h.sub, good := h.good, nodup := h.nodup, fromOffer := h.fromOffer,
+    sums := h.sums, claims := h.claims }
+
 theorem prematchLoop_inv (m : Mode) (o : Offer) (ds : List Desc) (s : OState)
     (hsv : StaticValid m ds) (h : Inv m o s) : Inv m o (prematchLoop m o s ds).1 := by
   induction ds generalizing s with
   | nil => exact h
   | cons d ds ih =>
     simp only [prematchLoop]
-    have hsub := tryPlace_sub m o s.rem d h.sub.1
+    have hsub := tryPlace_sub m o s.rem d h.sub.1 (hsv d (List.mem_cons_self))
     cases ht : tryPlace m o s.rem d with
     | skipCts => exact h
     | skipCls => exact h
     | skipRes => exact h
     | early p => rw [ht] at hsub; exact inv_setPorts m o s p s.used h hsub
     | late p => rw [ht] at hsub; exact inv_setPorts m o s p true h hsub
-    | panic =>
-      exact { cpu := h.cpu, mem := h.mem, sub := h.sub, good := h.good, nodup := h.nodup, fromOffer := h.fromOffer }
+    | panic => exact inv_crashed m o s h
     | ok t p =>
       exact ih _ (fun d' hd' => hsv d' (List.mem_cons_of_mem _ hd'))
         (inv_step m o s d t p (hsv d (List.mem_cons_self)) h ht)
@@ -1021,21 +1439,22 @@ theorem stillLoop_inv (m : Mode) (o : Offer) (ds : List Desc) (s : OState)
   | cons d ds ih =>
     have hsv' : StaticValid m ds := fun d' hd' => hsv d' (List.mem_cons_of_mem _ hd')
     simp only [stillLoop]
-    have hsub := tryPlace_sub m o s.rem d h.sub.1
+    have hsub := tryPlace_sub m o s.rem d h.sub.1 (hsv d (List.mem_cons_self))
     cases ht : tryPlace m o s.rem d with
     | skipCts => exact ih s hsv' h
     | skipCls => exact ih s hsv' h
     | skipRes => exact ih s hsv' h
     | early p => rw [ht] at hsub; exact ih _ hsv' (inv_setPorts m o s p s.used h hsub)
     | late p => rw [ht] at hsub; exact ih _ hsv' (inv_setPorts m o s p true h hsub)
-    | panic =>
-      exact { cpu := h.cpu, mem := h.mem, sub := h.sub, good := h.good, nodup := h.nodup, fromOffer := h.fromOffer }
+    | panic => exact inv_crashed m o s h
     | ok t p => exact ih _ hsv' (inv_step m o s d t p (hsv d (List.mem_cons_self)) h ht)
 
 theorem inv_init (m : Mode) (o : Offer) (hv : OValid o.res.ports = true) :
     Inv m o { rem := o.res, launches := [], used := false, crashed := false } :=
-  { cpu := rfl, mem := rfl, sub := Sub.refl _ hv, good := by simp, nodup := by simp [drawnOf],
-    fromOffer := by simp [drawnOf] }
+  { cpu := OLe.refl _, mem := OLe.refl _, sub := Sub.refl _ hv, good := by simp, nodup := by simp [drawnOf],
+    fromOffer := by simp [drawnOf],
+    sums := fun _ => by simp [cpuSum, memSum],
+    claims := fun _ => by simp [claimsOf] }
 
 /-! ### the `used` flag and what stays -/
 
@@ -1086,6 +1505,58 @@ theorem stillLoop_kept (m : Mode) (o : Offer) (ds : List Desc) (s : OState) :
     | panic => intro x hx; exact hx
     | ok t p => intro x hx; exact List.mem_cons_of_mem _ (ih _ x hx)
 
+/-! ### no crash when the draws are checked -/
+
+theorem tryPlace_no_panic (m : Mode) (hk : m.cfg.drawChecked = true) (o : Offer) (rem : Res) (d : Desc) :
+    tryPlace m o rem d = .panic → False := by
+  unfold tryPlace
+  by_cases hsat : m.sat o.attrs d.cts = true
+  · simp only [hsat, Bool.not_true, Bool.false_eq_true, if_false]
+    cases d.cls with
+    | none => intro h; cases h
+    | some c =>
+      simp only
+      by_cases hres : resSatisfy rem (c.wants m) = true
+      · simp only [hres, Bool.not_true, Bool.false_eq_true, if_false]
+        have := makeTask_no_panic m.cfg hk (c.wants m) rem.ports
+        cases hmk : makeTask m.cfg (c.wants m) rem.ports with
+        | early x => intro h; cases h
+        | late x => intro h; cases h
+        | panic => rw [hmk] at this; cases this
+        | ok t' p' => intro h; cases h
+      · simp only [hres, Bool.not_false, if_true]; intro h; cases h
+  · simp only [hsat, Bool.not_false, if_true]; intro h; cases h
+
+theorem prematchLoop_crashed (m : Mode) (hk : m.cfg.drawChecked = true) (o : Offer) (ds : List Desc) (s : OState) :
+    (prematchLoop m o s ds).1.crashed = s.crashed := by
+  induction ds generalizing s with
+  | nil => rfl
+  | cons d ds ih =>
+    simp only [prematchLoop]
+    cases ht : tryPlace m o s.rem d with
+    | skipCts => rfl
+    | skipCls => rfl
+    | skipRes => rfl
+    | early p => rfl
+    | late p => rfl
+    | panic => exact (tryPlace_no_panic m hk o s.rem d ht).elim
+    | ok t p => rw [ih]
+
+theorem stillLoop_crashed (m : Mode) (hk : m.cfg.drawChecked = true) (o : Offer) (ds : List Desc) (s : OState) :
+    (stillLoop m o s ds).1.crashed = s.crashed := by
+  induction ds generalizing s with
+  | nil => rfl
+  | cons d ds ih =>
+    simp only [stillLoop]
+    cases ht : tryPlace m o s.rem d with
+    | skipCts => rw [ih]
+    | skipCls => rw [ih]
+    | skipRes => rw [ih]
+    | early p => rw [ih]
+    | late p => rw [ih]
+    | panic => exact (tryPlace_no_panic m hk o s.rem d ht).elim
+    | ok t p => rw [ih]
+
 theorem preprocess_sub (offers : List Offer) (ds : List Desc) :
     (∀ e ∈ (preprocess offers ds).1, e.2 ∈ ds) ∧ (∀ d ∈ (preprocess offers ds).2.1, d ∈ ds) := by
   induction ds with
@@ -1109,7 +1580,14 @@ theorem preprocess_sub (offers : List Offer) (ds : List Desc) :
 
 /-- What holds of the launches accepted on one offer. -/
 def PerOffer (m : Mode) (o : Offer) (ls : List Launch) : Prop :=
-  (∀ l ∈ ls, Good m o l) ∧ (drawnOf ls).Nodup ∧ ∀ p ∈ drawnOf ls, omem p o.res.ports = true
+  (∀ l ∈ ls, Good m o l) ∧ (drawnOf ls).Nodup ∧ (∀ p ∈ drawnOf ls, omem p o.res.ports = true) ∧
+  (m.cfg.scalarsSubtracted = true → cpuSum ls ≤ avail o.res.cpu ∧ memSum ls ≤ avail o.res.mem) ∧
+  (m.cfg.staticReserved = true → (claimsOf ls).Nodup ∧ ∀ p ∈ claimsOf ls, omem p o.res.ports = true)
+
+theorem inv_perOffer (m : Mode) (o : Offer) (s : OState) (h : Inv m o s) : PerOffer m o s.launches :=
+  ⟨h.good, h.nodup, fun p hp => (h.fromOffer p hp).1,
+    fun hk => ⟨by have := (h.sums hk).1; omega, by have := (h.sums hk).2; omega⟩,
+    fun hk => ⟨(h.claims hk).1, fun p hp => ((h.claims hk).2 p hp).1⟩⟩
 
 structure RInv (m : Mode) (descs : List Desc) (order : List Offer) (st : RState) : Prop where
   still : ∀ d ∈ st.still, d ∈ descs
@@ -1172,7 +1650,7 @@ theorem handleOffer_inv (m : Mode) (descs : List Desc) (order : List Offer) (pm 
           | inl ha => exact h.accepts a ha
           | inr ha =>
             simp only [List.mem_singleton] at ha; subst ha
-            exact ⟨o, ho, rfl, i2.good, i2.nodup, fun p hp => (i2.fromOffer p hp).1⟩
+            exact ⟨o, ho, rfl, inv_perOffer m o s2 i2⟩
         · intro i hi
           by_cases hu2 : s2.used = true
           · simp only [hu2, if_true, List.mem_append, List.mem_singleton] at hi
@@ -1224,6 +1702,48 @@ theorem round_accepts (m : Mode) (offers : List Offer) (descs : List Desc) (orde
     · simp only [hu, Bool.not_true, Bool.false_eq_true, if_false]
       exact (foldl_handleOffer_inv m descs order pm hp.1 hsv order (fun o ho => ⟨ho, hv o ho⟩) _
         { still := hp.2, accepts := by simp, used := by simp, launched := by simp }).accepts
+    · simp [hu]
+
+/-- With the emptiness tests in front of `Min()` the handling of an offer cannot crash. -/
+theorem handleOffer_crashed (m : Mode) (hk : m.cfg.drawChecked = true) (pm : List (Nat × Desc)) (st : RState) (o : Offer)
+    (h : st.crashed = false) : (handleOffer m pm st o).crashed = false := by
+  unfold handleOffer
+  simp only [h, Bool.false_eq_true, if_false]
+  have c1 := prematchLoop_crashed m hk o ((pm.filter (fun e => decide (e.1 = o.oid))).map (·.2))
+    { rem := o.res, launches := [], used := false, crashed := false }
+  generalize prematchLoop m o { rem := o.res, launches := [], used := false, crashed := false }
+    ((pm.filter (fun e => decide (e.1 = o.oid))).map (·.2)) = r1 at c1
+  obtain ⟨s1, und1⟩ := r1
+  simp only at c1 ⊢
+  simp only [c1, Bool.false_eq_true, if_false]
+  by_cases hu : (st.und ++ und1).isEmpty = true
+  · have c2 := stillLoop_crashed m hk o st.still.reverse s1
+    simp only [hu, if_true]
+    generalize stillLoop m o s1 st.still.reverse = r2 at c2
+    obtain ⟨s2, kept⟩ := r2
+    simp only at c2 ⊢
+    simp [c2, c1]
+  · simp [hu, c1]
+
+theorem foldl_handleOffer_crashed (m : Mode) (hk : m.cfg.drawChecked = true) (pm : List (Nat × Desc))
+    (os : List Offer) (st : RState) (h : st.crashed = false) : (os.foldl (handleOffer m pm) st).crashed = false := by
+  induction os generalizing st with
+  | nil => exact h
+  | cons o os ih => simp only [List.foldl_cons]; exact ih _ (handleOffer_crashed m hk pm st o h)
+
+/-- … and neither can the round. -/
+theorem round_no_crash (m : Mode) (hk : m.cfg.drawChecked = true) (offers : List Offer) (descs : List Desc)
+    (order : List Offer) : (round m offers descs order).crashed = false := by
+  unfold round
+  by_cases hd : descs.isEmpty = true
+  · simp [hd]
+  · simp only [hd, Bool.false_eq_true, if_false]
+    generalize preprocess offers descs = pp
+    obtain ⟨pm, still, und⟩ := pp
+    simp only
+    by_cases hu : und.isEmpty = true
+    · simp only [hu, Bool.not_true, Bool.false_eq_true, if_false]
+      exact foldl_handleOffer_crashed m hk pm order _ rfl
     · simp [hu]
 
 /-- Declines: an offer that is not declined was answered by an ACCEPT, and an
@@ -1523,41 +2043,6 @@ theorem parseRanges_printRanges (fixed : Bool) (rs : Ranges) (hf : fixed = true 
       simp only [List.isEmpty_cons, Bool.false_eq_true, if_false]
       rw [← hx]
       exact parseItems_printRanges fixed r rest hf h
-
-/-! ## expanding ranges into ports -/
-
-theorem mem_expand (x : Nat) (rs : Ranges) : x ∈ expand rs ↔ mem x rs = true := by
-  unfold expand
-  rw [List.mem_flatMap, mem_iff]
-  constructor
-  · rintro ⟨r, hr, hx⟩
-    rw [List.mem_range'_1] at hx
-    exact ⟨r, hr, by rw [memR_iff]; omega⟩
-  · rintro ⟨r, hr, hx⟩
-    rw [memR_iff] at hx
-    exact ⟨r, hr, by rw [List.mem_range'_1]; omega⟩
-
-theorem expand_canon {lo : Nat} (rs : Ranges) (h : CanonFrom lo rs = true) :
-    (expand rs).Pairwise (· < ·) ∧ ∀ x ∈ expand rs, lo ≤ x := by
-  induction rs generalizing lo with
-  | nil => simp [expand]
-  | cons r rs ih =>
-    simp only [CanonFrom, Bool.and_eq_true, decide_eq_true_eq] at h
-    obtain ⟨p1, p2⟩ := ih h.2
-    have he : expand (r :: rs) = List.range' r.1 (r.2 + 1 - r.1) ++ expand rs := by simp [expand]
-    rw [he]
-    refine ⟨?_, ?_⟩
-    · rw [List.pairwise_append]
-      refine ⟨List.pairwise_lt_range', p1, ?_⟩
-      intro a ha b hb
-      rw [List.mem_range'_1] at ha
-      have := p2 b hb
-      omega
-    · intro x hx
-      rw [List.mem_append] at hx
-      cases hx with
-      | inl hx => rw [List.mem_range'_1] at hx; omega
-      | inr hx => have := p2 x hx; omega
 
 theorem nodupNat_iff (xs : List Nat) : nodupNat xs = true ↔ xs.Nodup := by
   induction xs with
